@@ -181,6 +181,26 @@ def run_doc(ctx: Ctx, d: specgen.Doc, n: int, layout: tuple[str, str | None]) ->
             dd = diff_trees({k: v for k, v in base.items()}, {k: v for k, v in got.items()})
             if dd:
                 rec.violation(f"determinism:prior_run:{classify_changed(dd)}", feats, dict(case, variant="prior_run"), dd)
+    # prior run of the SAME document with ANOTHER core layout into the same root (the user moves the core out of, or into,
+    # the client package), then a forced run with this layout: everything under the package roots must equal a fresh project
+    other_core = None if core else pkg.split(".")[0] + "_rt.core"
+    if other_core != core:
+        root_l = work / "priorlayout"
+        q1 = genrun.generate(d.doc, root_l, pkg, other_core, force=True, spec_path=spec)
+        q2 = genrun.generate(d.doc, root_l, pkg, core, force=True, spec_path=spec)
+        rec.count("prior_layout_scenarios")
+        rec.case(dict(case, variant="prior run with another core layout"), nontrivial=True)
+        if q1.ok and q2.ok:
+            rec.count("tree_pairs_compared")
+
+            def whole(root):     # every file under the package roots this layout uses, whatever its suffix
+                return {str(p.relative_to(root)): hashlib.sha256(p.read_bytes()).hexdigest() for t in tops for p in sorted((root / t).rglob("*"))
+                        if p.is_file() and "__pycache__" not in p.parts}
+
+            ref_root = work / f"hs{seeds[0]}"
+            dd = diff_trees(whole(ref_root), whole(root_l))
+            if dd:
+                rec.violation(f"determinism:prior_layout:{classify_changed(dd)}", feats, dict(case, variant="prior_layout", prior_core=other_core), dd)
     # the same spec PATH rewritten in place between two generations of one (warm) process: the second generation must be
     # of the file's current content, i.e. equal to the tree obtained from the same document under another path
     spec_rw = work / "spec-rewritten.json"
